@@ -207,6 +207,10 @@ class EncodeBody(CircuitContract):
             lt = it_.label_term(it_.getattr(g, 'label'))
             it_.ctx.check('encode_gate/pre/gate-of-the-circuit', S0.dom(lt))
             if it_.ctx.choose(_simp(S0.typ(lt) == GT['INPUT'])):
+                from . import c16_gate
+                if 'raises' in c16_gate.INPUT_OUTCOME and 'returns' not in c16_gate.INPUT_OUTCOME:
+                    m__ = it_.load_module('cirbo.circuits_db.circuits_encoding')
+                    raise PyRaise(it_.instantiate(m__.env['CircuitEncodingError'], ['input gate'], {}))
                 return None
             wr.append_record(lt)
             return None
